@@ -685,6 +685,10 @@ def ref_len(a, facts, r, point):
                         d = _ladd(lh, ll, -1)
                         if not d[0] and d[1] >= 0:
                             return d[1]
+                        if d[1] == 0 and len(d[0]) == 1:
+                            (at, co), = d[0].items()
+                            if co == 1 and at[0] == 'sym':
+                                return at[1]           # exactly one type-level length
                 return None
             else:
                 return None
@@ -956,10 +960,15 @@ class Discharger:
         base, r = a.arg_val(bi, 0), a.arg_val(bi, 1)
         if r[0] == 'agg' and r[2].startswith('core::ops::RangeFull'):
             return 'D2', 'full range'
-        if not (r[0] == 'agg' and r[2].rsplit('::', 1)[0] in ('core::ops::Range', 'core::ops::RangeTo', 'core::ops::RangeFrom')):
+        if r[0] == 'call' and r[1] == 'core::ops::RangeInclusive::new' and len(r[2]) == 2:
+            # a..=b is a..b + 1; b + 1 cannot wrap when b is bounded by a length (checked below through hi <= len)
+            from ..prov import fold_bin
+            lo, hi = r[2][0], fold_bin('Add', r[2][1], ('const', 'usize', 1))
+        elif not (r[0] == 'agg' and r[2].rsplit('::', 1)[0] in ('core::ops::Range', 'core::ops::RangeTo', 'core::ops::RangeFrom')):
             return None
-        f = dict(zip(r[4], r[3]))
-        lo, hi = f.get('start'), f.get('end')
+        else:
+            f = dict(zip(r[4], r[3]))
+            lo, hi = f.get('start'), f.get('end')
         n = ref_len(a, facts, base, p)
         nb = sym_bounds(facts, n) if n is not None else None
         lo_b = len_term_bounds(a, facts, lo, p) if lo is not None else (0, 0)
@@ -978,6 +987,12 @@ class Discharger:
             w2 = lin_holds(a, facts, 'Le', hi, ('const', 'usize', nb[0]), p)
             if w1 and w2:
                 return 'D7', 'range lo..hi with lo <= hi (%s) and hi <= %d (%s)' % (w1, nb[0], w2)
+        # lo..hi of a slice whose length is itself an unknown: lo <= hi and hi <= len(base) as linear facts
+        if lo is not None and hi is not None:
+            w1 = lin_holds(a, facts, 'Le', lo, hi, p)
+            w2 = lin_holds(a, facts, 'Le', hi, ('len', base), p)
+            if w1 and w2:
+                return 'D7', 'range lo..hi with lo <= hi (%s) and hi <= len (%s)' % (w1, w2)
         # [..N - unused.len()] of the concat idiom
         if lo is None and hi is not None and hi[0] == 'bin' and hi[1] == 'Sub' and isinstance(n, int) and const_of(hi[2]) == n and hi[3][0] == 'len':
             return 'D4', 'prefix [..%d - unused.len()] of the %d-byte buffer' % (n, n)
